@@ -10,7 +10,11 @@ if ! (cd "$scratch/repo" && git apply --whitespace=nowarn "$patch" 2>/dev/null |
   echo "PATCH-FAILED $patch"; exit 3
 fi
 for prop in "$@"; do
-  out=$(/verif/bin/upfcheck -prop "$prop" -repo "$scratch/repo" -verif /verif -out "$scratch/ev" 2>&1); rc=$?
+  if [ "$prop" = C20 ]; then
+    out=$(python3 /verif/checker/py/route_rules.py --prop C20 --repo "$scratch/repo" --verif /verif --out "$scratch/ev" 2>&1); rc=$?
+  else
+    out=$(/verif/bin/upfcheck -prop "$prop" -repo "$scratch/repo" -verif /verif -out "$scratch/ev" 2>&1); rc=$?
+  fi
   case $rc in
     0) echo "MISSED    $prop  $(basename $(dirname $patch))/$(basename $patch)";;
     1) echo "DETECTED  $prop  $(basename $(dirname $patch))/$(basename $patch)"; echo "$out" | grep -A3 '^VIOLATION' | grep -v '^VIOLATION' | head -${MUT_LINES:-6} | sed 's/^/    /';;
